@@ -1013,7 +1013,13 @@ func init() {
 		rtSync := e2sched{E2: e2p{Clients: 2, Type: "counter", Prefix: "joined", SyncType: "realtime", Tolerant: true},
 			Conc:  []pact{{Op: "sync", R: 0}, {Op: "inc", R: 0, P: 1, T: "k1|"}},
 			AtEnd: []string{"announced", "quiescent", "log", "converge", "reference"}, NoClose: true}
+		// a second realtime client joins (its first sync) while the first one issues an operation
+		rtJoin := e2sched{E2: e2p{Clients: 2, Type: "counter", Prefix: "created", SyncType: "realtime", Tolerant: true},
+			Conc:  []pact{{Op: "opensync", R: 1, T: "k1", K: "soc"}, {Op: "inc", R: 0, P: 1, T: "k1|"}},
+			AtEnd: []string{"quiescent", "log", "converge", "reference"}, NoClose: true}
+		_ = rtJoin
 		if tier == "quick" {
+			p.Runs = append(p.Runs, schedRun("realtime-join-next-to-an-operation-b2", 2, rtJoin, 0))
 			p.Runs = append(p.Runs, schedRun("realtime-sync-call-next-to-an-operation-b2", 2, rtSync, 0))
 			p.Runs = append(p.Runs, schedRun("realtime-two-datatypes-one-client-b1", 1, rt2k, 0), schedRun("realtime-key-with-slash-b1", 1, rtSlash, 0))
 			p.Runs = append(p.Runs, schedRun("realtime-counter-2ops-listener-b2", 2, rt2("counter"), 0))
